@@ -145,3 +145,79 @@ VMC_SEQ_HARNESS(det_terminate, "C09") {
   vmc::check(led.live == 0 && led.allocs == 1, "C09,C02", "shared-state", "spawn_detached operation not freed exactly once");
   vmc::note(std::string("outcome") + "VED"[outcome]);
 }
+
+// ---- operation sequences on futures as values: spawn (open / closed scope), move-construct, move-assign in all four
+// nested/not-nested combinations, destroy, await; then everything is destroyed and the scope joined.  Each spawned
+// operation is a deferred leaf, so an unawaited future that is dropped must request stop on it; every shared state must
+// be returned to the allocator exactly once and the scope must become joinable.  args: [depth]
+namespace {
+template <class Scope>
+void future_ops_body(int depth) {
+  kit::AllocLedger led; led.props = "C09,C02";
+  LeafState leaves[6]; int nleaf = 0;
+  RcvState rj; rj.props = "C09,C08";
+  inplace_stop_source never;
+  std::string trace;
+  {
+    Scope scope;
+    using fut_t = decltype(spawn_future(kit::Leaf{&leaves[0]}, scope, kit::counting_allocator<std::byte>{&led}));
+    std::optional<fut_t> f[2];
+    bool closed = false;
+    using join_op_t = decltype(unifex::connect(scope.join(), JoinRcv{&rj}));
+    std::unique_ptr<join_op_t> jop;
+    RcvState rf[6]; int nrf = 0;
+    using await_op_t = decltype(unifex::connect(std::declval<fut_t>(), kit::Rcv<>{nullptr, inplace_stop_token{}}));
+    std::vector<std::unique_ptr<await_op_t>> awaits;
+    auto close = [&] { if (!closed) { closed = true; jop.reset(new join_op_t(unifex::connect(scope.join(), JoinRcv{&rj}))); unifex::start(*jop); } };
+    for (int i = 0; i < depth; ++i) {
+      int op = vmc::choose(9);
+      trace += std::to_string(op);
+      int w = op & 1;   // which variable
+      switch (op) {
+        case 0: case 1:   // (re)spawn into variable w
+          if (nleaf >= 6) break;
+          leaves[nleaf].props = "C09,C02";
+          if (f[w]) *f[w] = spawn_future(kit::Leaf{&leaves[nleaf]}, scope, kit::counting_allocator<std::byte>{&led});
+          else f[w].emplace(spawn_future(kit::Leaf{&leaves[nleaf]}, scope, kit::counting_allocator<std::byte>{&led}));
+          ++nleaf;
+          break;
+        case 2: case 3:   // move-assign w <- other (both must exist)
+          if (f[w] && f[1 - w]) *f[w] = std::move(*f[1 - w]);
+          break;
+        case 4: case 5:   // destroy w
+          f[w].reset();
+          break;
+        case 6: case 7:   // await w: the future is consumed
+          if (f[w] && nrf < 6) {
+            rf[nrf].props = "C09,C01";
+            std::unique_ptr<await_op_t> a(new await_op_t(unifex::connect(std::move(*f[w]), kit::Rcv<>{&rf[nrf], never.get_token()})));
+            f[w].reset();
+            unifex::start(*a);
+            awaits.push_back(std::move(a));
+            ++nrf;
+          }
+          break;
+        default: close(); break;
+      }
+    }
+    // complete whatever is still running (an operation whose future was dropped has been asked to stop: it ends with done)
+    for (int i = 0; i < nleaf; ++i)
+      if (leaves[i].pending()) kit::complete(leaves[i], leaves[i].stop_seen ? 'D' : 'V', i + 1);
+    f[0].reset(); f[1].reset();
+    for (int i = 0; i < nleaf; ++i)
+      if (leaves[i].pending()) kit::complete(leaves[i], leaves[i].stop_seen ? 'D' : 'V', i + 1);
+    for (int i = 0; i < nrf; ++i)
+      vmc::check(rf[i].count == 1, "C09,C01", "future-lost", ("an awaited future did not complete exactly once after its operation completed; ops: " + trace).c_str());
+    awaits.clear();
+    close();
+    vmc::check(rj.count == 1, "C09,C08", "join-lost", ("the scope cannot be joined although every future was destroyed or awaited (a reference leaked); ops: " + trace).c_str());
+  }
+  for (int i = 0; i < nleaf; ++i) vmc::check(leaves[i].ops_alive == 0, "C09,C02", "op-leak", ("a spawned operation state is still alive; ops: " + trace).c_str());
+  vmc::check(led.live == 0, "C09,C02", "shared-state", ("future shared state leaked: " + std::to_string(led.live) + " block(s) still allocated; ops: " + trace).c_str());
+  vmc::note("ok");
+}
+}  // namespace
+VMC_SEQ_HARNESS(fut_ops, "C09,C02,C08") {
+  int depth = vmcrt::arg(0, 4);
+  future_ops_body<v2::async_scope>(depth);
+}
